@@ -181,6 +181,7 @@ class Sim:
         crit_tb = [c for c in self.logger.crit if 'Traceback' in c]
         if crit_tb and err is None:
             err = 'InvalidTransition' if 'InvalidTransition' in crit_tb[0] else 'Other:' + crit_tb[0][-120:]
+            self.last_err = err
         self.logger.crit = []
         emitted = self.emitted + outs; self.emitted = []
         return (f"fsm={lm.state.value} master={master} inst={inst} deg={'true' if lm.degraded_mode else 'false'}"
